@@ -70,3 +70,35 @@ impl Hasher for SeededHasher {
 
 pub type HashMap<K, V> = std::collections::HashMap<K, V, SeededState>;
 pub type HashSet<K> = std::collections::HashSet<K, SeededState>;
+
+/// `new` / `with_capacity` for the seeded collections (std defines them for `RandomState`
+/// only), so that code written against `std::collections::HashMap` compiles unchanged with the
+/// cfg flag on.
+pub trait HashMapExt {
+    fn new() -> Self;
+    fn with_capacity(capacity: usize) -> Self;
+}
+
+impl<K, V> HashMapExt for HashMap<K, V> {
+    fn new() -> Self {
+        Self::default()
+    }
+    fn with_capacity(capacity: usize) -> Self {
+        Self::with_capacity_and_hasher(capacity, SeededState::default())
+    }
+}
+
+/// See [`HashMapExt`].
+pub trait HashSetExt {
+    fn new() -> Self;
+    fn with_capacity(capacity: usize) -> Self;
+}
+
+impl<K> HashSetExt for HashSet<K> {
+    fn new() -> Self {
+        Self::default()
+    }
+    fn with_capacity(capacity: usize) -> Self {
+        Self::with_capacity_and_hasher(capacity, SeededState::default())
+    }
+}
